@@ -87,6 +87,17 @@ var defaultExcludeAv4 = []*net.IPNet{
 // middleware. Returns nil when DNS64 is not enabled or has no
 // usable prefix — New translates that into a typed-nil Handler so
 // the registry skips the middleware entirely.
+// overlappingPrefix returns the network of an already accepted prefix that
+// contains p's address or whose address p contains, nil when there is none.
+func overlappingPrefix(accepted []compiledPrefix, p *net.IPNet) *net.IPNet {
+	for _, a := range accepted {
+		if a.net.Contains(p.IP) || p.Contains(a.net.IP) {
+			return a.net
+		}
+	}
+	return nil
+}
+
 func compileConfig(cfg *config.Config) *compiled {
 	c := cfg.DNS64
 	if !c.Enabled {
@@ -102,6 +113,14 @@ func compileConfig(cfg *config.Config) *compiled {
 		}
 		if err := validatePrefix(p); err != nil {
 			zlog.Error("DNS64 prefix invalid", "prefix", raw, "error", err.Error())
+			continue
+		}
+		if earlier := overlappingPrefix(out.prefixes, p); earlier != nil {
+			// An address synthesised under the longer of two nested
+			// prefixes is also an embedding under the shorter one — of a
+			// different IPv4 address — and the PTR translation can only
+			// pick one of them: the mapping stops being reversible.
+			zlog.Error("DNS64 prefix overlaps an earlier one", "prefix", raw, "earlier", earlier.String())
 			continue
 		}
 		out.prefixes = append(out.prefixes, compiledPrefix{
